@@ -68,6 +68,8 @@ package expr
 //@   assigns nothing
 //
 //@ func EvaluateAdd(lhs, rhs) (res, err)
+//@   requires validSys(lhs) && validSys(rhs)
+//@   requires (isDateV(lhs) || isDateTimeV(lhs) || isTimeV(lhs)) && isQuantityV(rhs) ==> absR(qVal(rhs)) <= 1000000.0
 //@   ensures isInteger(lhs) && isInteger(rhs) && inInt32(intOf(lhs) + intOf(rhs)) ==> err == nil && res == mkInt(intOf(lhs) + intOf(rhs))
 //@   ensures isInteger(lhs) && isInteger(rhs) && !inInt32(intOf(lhs) + intOf(rhs)) ==> is(err, system.ErrIntOverflow)
 //@   ensures isDecimalV(lhs) && isDecimalV(rhs) ==> err == nil && res == mkDec(decOf(lhs) + decOf(rhs))
@@ -77,6 +79,8 @@ package expr
 //@   assigns nothing
 //
 //@ func EvaluateSub(lhs, rhs) (res, err)
+//@   requires validSys(lhs) && validSys(rhs)
+//@   requires (isDateV(lhs) || isDateTimeV(lhs) || isTimeV(lhs)) && isQuantityV(rhs) ==> absR(qVal(rhs)) <= 1000000.0
 //@   ensures isInteger(lhs) && isInteger(rhs) && inInt32(intOf(lhs) - intOf(rhs)) ==> err == nil && res == mkInt(intOf(lhs) - intOf(rhs))
 //@   ensures isInteger(lhs) && isInteger(rhs) && !inInt32(intOf(lhs) - intOf(rhs)) ==> is(err, system.ErrIntOverflow)
 //@   ensures isDecimalV(lhs) && isDecimalV(rhs) ==> err == nil && res == mkDec(decOf(lhs) - decOf(rhs))
@@ -147,6 +151,7 @@ package expr
 //@   let num = lerr == nil && rerr == nil && len(l) == 1 && len(r) == 1 && fromOk(l[0]) && fromOk(r[0]) && isNum(a) && isNum(b)
 //@   let ints = num && isInteger(a) && isInteger(b)
 //@   let decs = num && !(isInteger(a) && isInteger(b))
+//@   requires fromOk(l[0]) && fromOk(r[0]) && (isDateV(a) || isDateTimeV(a) || isTimeV(a)) && isQuantityV(b) ==> absR(qVal(b)) <= 1000000.0
 //@   ensures lerr != nil || rerr != nil ==> err != nil
 //@   ensures lerr == nil && rerr == nil && (len(l) == 0 || len(r) == 0) ==> err == nil && len(res) == 0
 //@   ensures lerr == nil && rerr == nil && len(l) > 0 && len(r) > 0 && (len(l) > 1 || len(r) > 1) ==> is(err, ErrNotSingleton)
